@@ -9,9 +9,9 @@ W8 = 255
 
 def pick_mode(rng):
     r = rng.random()
-    if r < 0.58: return 'small'
-    if r < 0.76: return 'u8'
-    if r < 0.88: return 'wide'
+    if r < 0.52: return 'small'
+    if r < 0.68: return 'u8'
+    if r < 0.78: return 'wide'
     if r < 0.94: return 'dense'
     return 'medium'
 
